@@ -115,8 +115,43 @@ func shortFn(fn *ssa.Function) string {
 
 // totality checks that no function reachable from entries can panic on an
 // index, slice, type assertion, division or explicit panic.
+// fieldsWritten: names of struct fields a function may write, transitively.
+var fwCache = map[*ssa.Function]map[string]bool{}
+
+func fieldsWritten(p *core.Prog, f *ssa.Function) map[string]bool {
+	if m, ok := fwCache[f]; ok {
+		return m
+	}
+	m := map[string]bool{}
+	fwCache[f] = m
+	for _, r := range reachableMod(p, []*ssa.Function{f}, nil) {
+		for _, w := range writesIn(p, r) {
+			if w.Field != nil {
+				m[w.Field.Name()] = true
+			}
+		}
+	}
+	return m
+}
+
 func totality(ctx *core.Ctx, entries []*ssa.Function, o totalOpts) {
 	p := ctx.P
+	boundx.CalleeWrites = func(c *ssa.CallCommon, field string) bool {
+		cal := c.StaticCallee()
+		if cal == nil {
+			// interface or function-value call: may run module code only through a closure or a
+			// method of a module type; be conservative for function values, trust library interfaces
+			if c.IsInvoke() {
+				pk := c.Method.Pkg()
+				return pk != nil && strings.HasPrefix(pk.Path(), core.ModPath)
+			}
+			return true
+		}
+		if !core.InModule(cal) {
+			return false
+		}
+		return fieldsWritten(p, cal)[field]
+	}
 	fns := reachableMod(p, entries, o.stop)
 	isEntry := map[*ssa.Function]bool{}
 	for _, e := range entries {
